@@ -116,8 +116,9 @@ def run(ctx, rep):
         for name, m in sorted(c.methods.items()):
             if name in CONSTRUCTORS or m.kind == "classmethod" and name.startswith("from_"):
                 continue
-            if name.startswith("_parse_data") or name.startswith("_build_") or name == "_partition_lines_by_data_section":
-                continue  # construction helpers (classmethods used only by the from_* factories)
+            if name.startswith("_") and not name.startswith("__") and m.kind in ("classmethod", "staticmethod") and m.qual in P.reach \
+                    and not any(e.caller not in P.reach for e in P.cg.callers_of(m.qual)):
+                continue  # private construction helpers: class/static methods called only from the from_* factories' call tree
             api.append(m)
     mix = ["chartparse.util.DictPropertiesEqMixin.__eq__", "chartparse.util.DictReprMixin.__repr__",
            "chartparse.util.DictReprTruncatedSequencesMixin.__repr__"]
